@@ -13,12 +13,12 @@ theorem inner_optional_rejected (E : Engine) (r : Route) (hid : Nat) (s s2 : Seg
   simp [addNext, h]
 
 /-- "the same route is already registered for that method" ⇒ rejected: a leaf list that already
-    holds the segment's canonical text refuses it -/
+    holds the segment's text (the optional mark aside) refuses it -/
 theorem duplicate_leaf_rejected (E : Engine) (leaves : List Leaf) (ab : List Bytes) (as : Bool)
-    (r : Route) (s : Segment) (hid : Nat) (long : Bool) (h : ∃ l ∈ leaves, l.key = s.render) :
+    (r : Route) (s : Segment) (hid : Nat) (long : Bool) (h : ∃ l ∈ leaves, l.key = s.leafKey) :
     addLeafTo E leaves ab as r s hid long = .error .dupRoute := by
   obtain ⟨l, hl, hk⟩ := h
-  have : leaves.any (fun l => decide (l.key = s.render)) = true := by
+  have : leaves.any (fun l => decide (l.key = s.leafKey)) = true := by
     simp only [List.any_eq_true, decide_eq_true_eq]; exact ⟨l, hl, hk⟩
   simp [addLeafTo, this]
 
